@@ -163,7 +163,7 @@ void core_reset_run() {
     t.id = -1; t.st = ST_FREE; t.park = 0; t.fn = nullptr; t.arg = nullptr; t.ret = nullptr;
     t.detached = t.joined = false; t.wait_addr = 0; t.wait_tid = -1; t.deadline = -1; t.wake_reason = W_NONE;
     t.pts = 0; t.op = -1; t.k = 0; t.in_op = false; t.prio = 0; t.idle_pts = 0; t.ops_done = 0;
-    t.watch_deadline = -1; t.watch_pts = 0;
+    t.watch_deadline = -1; t.watch_pts = 0; t.block_start = 0; t.blocked_ns = 0;
     t.sb.clear(); t.vc.clear(); t.fence_rel.clear(); t.has_fence_rel = false; t.pend_acq.clear(); t.has_pend_acq = false;
   }
   G.nth = 0; G.cur = nullptr;
@@ -194,6 +194,7 @@ static int count_runnable(Thread** out) {
 }
 
 void make_runnable(Thread* t, int reason) {
+  if (t->st == ST_FUTEX || t->st == ST_COND || t->st == ST_SLEEP) t->blocked_ns += G.now - t->block_start;
   t->st = ST_RUN;
   t->wake_reason = reason;
   t->deadline = -1;
@@ -518,6 +519,7 @@ void block(State st, uintptr_t addr, int64_t deadline, int wait_tid) {
   me->deadline = deadline;
   me->wait_tid = wait_tid;
   me->wake_reason = W_NONE;
+  me->block_start = G.now;
   me->k++;
   if (deadline >= 0 && (g_min_deadline < 0 || deadline < g_min_deadline)) g_min_deadline = deadline;
   if (G.trace) fprintf(stderr, "T%d blocks %s addr=%lx deadline=%lld\n", me->id, st_name(st), (unsigned long)addr, (long long)deadline);
@@ -628,6 +630,7 @@ bool others_blocked_forever() {
 }
 uint32_t my_clock() { return self ? self->vc.c[self->id] : 0; }
 bool happened_before_me(int t, uint32_t clock) { return self && t >= 0 && t < MAXT && (t == self->id || self->vc.c[t] >= clock); }
+int64_t my_blocked_ns() { return self ? self->blocked_ns : 0; }
 uint64_t my_points() { return self ? self->pts : 0; }
 void watch_deadline(int64_t abs_ns) { if (self) { self->watch_deadline = abs_ns; self->watch_pts = 0; } }
 uint64_t points_since_deadline() { return self && self->watch_pts ? self->pts - self->watch_pts : 0; }
